@@ -638,7 +638,9 @@ func (fr *Frame) builtin(site ssa.Instruction, b *ssa.Builtin, com *ssa.CallComm
 				return StrLen(a)
 			}
 			if a.S == SRef { // map
-				return App("maplen", SInt, a, st.heapGet("M:has"))
+				n := App("maplen", SInt, a)
+				vc.addFact(st, Le(IntLit(0), n))
+				return n
 			}
 		}
 	case "cap":
